@@ -225,3 +225,28 @@ N("C09", "local dict for membership", D + "network.py", "    out = []\n    for m
 N("C09", "len(set()) heuristic", D + "base64.py", "len(set(b64_string)) <= MIN_B64_CHARS", "len({c for c in b64_string}) <= MIN_B64_CHARS")
 B("C18", "get_keywords memoised", REG, "def get_keywords(directory: str = \"\") -> Registry:", "@lru_cache(maxsize=None)\ndef get_keywords(directory: str = \"\") -> Registry:", "R5-config", also=[dict(file=REG, old="from functools import partial", new="from functools import lru_cache, partial")])
 B("C09", "get_keywords memoised", REG, "def get_keywords(directory: str = \"\") -> Registry:", "@lru_cache(maxsize=None)\ndef get_keywords(directory: str = \"\") -> Registry:", "R3-shared-writes", also=[dict(file=REG, old="from functools import partial", new="from functools import lru_cache, partial")])
+
+# ------------------------------------------------------------------ C13
+B64 = D + "base64.py"
+HEXF = D + "hex.py"
+XH = "src/multidecoder/xor_helper.py"
+B("C13", "group(1) for group(2) in FromBase64String", B64, "b64 = binascii.a2b_base64(match.group(2))", "b64 = binascii.a2b_base64(match.group(1))", "R")
+B("C13", "span from group 2", B64, 'b64_node = Node(POWERSHELL_BYTES_TYPE, b64, "encoding.base64", *match.span())', 'b64_node = Node(POWERSHELL_BYTES_TYPE, b64, "encoding.base64", *match.span(2))', "R1-provenance")
+B("C13", "MIN_B64_CHARS = 5", B64, "MIN_B64_CHARS = 6", "MIN_B64_CHARS = 5", "R3-acceptance")
+B("C13", "% 4 -> % 2", B64, "if len(b64_string) % 4 != 0 or", "if len(b64_string) % 2 != 0 or", "R3-acceptance")
+B("C13", "BASE64_RE {5,} -> {4,}", B64, "\\r?\\n?){5,}[A-Za-z0-9+/]{2,}=?=?", "\\r?\\n?){4,}[A-Za-z0-9+/]{2,}=?=?", "R3-acceptance")
+B("C13", "HEX_RE loses the upper-case branch", HEXF, 'HEX_RE = rb"((?:[a-f0-9]{2}){10,}|(?:[A-F0-9]{2}){10,})"', 'HEX_RE = rb"((?:[a-f0-9]{2}){10,})"', "R3-acceptance")
+B("C13", "HEX_RE admits odd lengths", HEXF, 'HEX_RE = rb"((?:[a-f0-9]{2}){10,}|(?:[A-F0-9]{2}){10,})"', 'HEX_RE = rb"([a-f0-9]{20,}|(?:[A-F0-9]{2}){10,})"', "R")
+B("C13", "xor -> and", XH, "data = bytes(b ^ xorkey for b in data)", "data = bytes(b & xorkey for b in data)", "R4-xor")
+B("C13", "label from a different key", XH, '"cipher.xor" + str(xorkey),', '"cipher.xor" + str(xorkey & 0xFF),', "R4-xor")
+B("C13", "xor child span off by one", XH, "            end=len(data),\n", "            end=len(data) - 1,\n", "R4-xor")
+B("C13", "base64 strips spaces too", B64, '            .replace(b"<\\x00  \\x00", b"")\n', '            .replace(b"<\\x00  \\x00", b"")\n            .replace(b"/", b"")\n', "R1-provenance")
+B("C13", "atob label wrong", B64, 'out.append(Node("javascript.string", b64, "encoding.base64", *match.span()))', 'out.append(Node("javascript.string", b64, "encoding.hexidecimal", *match.span()))', "R1-provenance")
+B("C13", "ATOB_RE requires double quotes", B64, "ATOB_RE = rb\"atob\\(['\\\"]([A-Za-z0-9+/]+=?=?)['\\\"]\\)\"", "ATOB_RE = rb\"atob\\([\\\"]([A-Za-z0-9+/]+=?=?)[\\\"]\\)\"", "R3-acceptance")
+B("C13", "hex decodes lower-cased slice", HEXF, 'Node("", unhexlify(match.group(0)), "decoded.hexadecimal", *match.span(0))', 'Node("", unhexlify(match.group(0)[2:]), "decoded.hexadecimal", *match.span(0))', "R1-provenance")
+B("C13", "slash rule 3/32 -> 3/16", B64, "> 3 / 32:", "> 3 / 16:", "R3-acceptance")
+B("C13", "xor applied to a different buffer", B64, "b64_node = apply_xor_key(xorkey, b64, b64_node, POWERSHELL_BYTES_TYPE)", "b64_node = apply_xor_key(xorkey, match.group(2), b64_node, POWERSHELL_BYTES_TYPE)", "R4-xor")
+N("C13", "threshold written as < 7", B64, "len(set(b64_string)) <= MIN_B64_CHARS", "len(set(b64_string)) < MIN_B64_CHARS + 1")
+N("C13", "regex equal-language rewrite", HEXF, 'HEX_RE = rb"((?:[a-f0-9]{2}){10,}|(?:[A-F0-9]{2}){10,})"', 'HEX_RE = rb"((?:[0-9a-f][0-9a-f]){10,}|(?:[0-9A-F]{2}){10,})"')
+N("C13", "xor operands swapped", XH, "data = bytes(b ^ xorkey for b in data)", "data = bytes(xorkey ^ b for b in data)")
+N("C13", "guards split", B64, "        if len(b64_string) % 4 != 0 or len(set(b64_string)) <= MIN_B64_CHARS:\n            continue\n", "        if len(b64_string) % 4 != 0:\n            continue\n        if len(set(b64_string)) <= MIN_B64_CHARS:\n            continue\n")
